@@ -10,6 +10,7 @@ expansion.
 """
 import itertools
 import math
+import re
 import warnings
 
 from .. import wire
@@ -41,6 +42,8 @@ def family(x):
         return "text"
     if isinstance(x, (bool, int, float)):
         return "num"
+    if isinstance(x, bytes):
+        return "bytes"
     return "other"
 
 
@@ -83,7 +86,7 @@ def canon(v):
         v = v.item()
     if isinstance(v, float) and v != v:
         return NAN
-    if v is None or isinstance(v, (bool, int, float, str)):
+    if v is None or isinstance(v, (bool, int, float, str, bytes)):
         return v
     return {"__repr__": repr(v)[:80]}
 
@@ -266,6 +269,186 @@ def default_np_ok(dt, d):
     return type(d) is float and _holds_float(d, dt)
 
 
+# --------------------------------------------------------------------------- how the column is declared
+#
+# Every column class goes through the shared constructor FlatColumn.__init__.  It takes the type as an
+# OrsoTypes member or as a type *name* -- plain ('VARCHAR', any letter case) or parametrised
+# ('VARCHAR[n]', 'BLOB[n]', 'DECIMAL(p,s)', 'ARRAY<T>') -- and copies the parameters written in the
+# name into the attributes `length`, `precision`, `scale`, `element_type` unless the keyword was given.
+# ConstantColumn / FunctionColumn reuse `length` as the number of rows, so the width in 'VARCHAR[20]'
+# and the row count meet in one attribute.  A case may therefore say how the column is declared:
+# `type` (member), `type_name` (any spelling), `kw` (further keywords of the shared constructor).
+
+TYPE_NAME_RE = re.compile(
+    r"^(?:(?P<plain>INTEGER|DOUBLE|VARCHAR|BOOLEAN|BLOB|DECIMAL)"
+    r"|(?P<wbase>VARCHAR|BLOB)\[(?P<w>\d{1,6})\]"
+    r"|DECIMAL\((?P<p>\d{1,2}), ?(?P<s>\d{1,2})\)"
+    r"|ARRAY<(?P<elem>INTEGER|DOUBLE|VARCHAR|BOOLEAN)>)$", re.I)
+
+
+def parse_type_name(t):
+    """(base, declared width or None) for the spellings the harness uses; None for anything else."""
+    m = TYPE_NAME_RE.match(t) if isinstance(t, str) else None
+    if not m:
+        return None
+    if m.group("plain"):
+        return m.group("plain").upper(), None
+    if m.group("wbase"):
+        return m.group("wbase").upper(), int(m.group("w"))
+    if m.group("p") is not None:
+        p_, s_ = int(m.group("p")), int(m.group("s"))
+        return ("DECIMAL", None) if 0 <= s_ <= p_ <= 38 else None
+    return "ARRAY", None
+
+
+def decl_holds(base, width, v):
+    """The declared type admits the value (a null is admitted by every type; a declared width is at least
+    the width of the text / bytes it declares)."""
+    if v is None:
+        return True
+    if base == "INTEGER":
+        return type(v) is int
+    if base == "DOUBLE":
+        return type(v) is float
+    if base == "BOOLEAN":
+        return type(v) is bool
+    if base == "DECIMAL":
+        return type(v) is int
+    if base == "VARCHAR":
+        return type(v) is str and (width is None or len(v) <= width)
+    if base == "BLOB":
+        return type(v) is bytes and (width is None or len(v) <= width)
+    return False  # ARRAY<T>: only nulls among the element kinds of this property
+
+
+KW_KEYS = {"precision", "scale", "element_type", "nullable", "description", "aliases", "default", "length"}
+
+
+def kw_ok(c, base, width, vs):
+    kw = c.get("kw")
+    if kw is None:
+        return True
+    if not isinstance(kw, dict) or not kw or not set(kw) <= KW_KEYS:
+        return False
+    for k, v in kw.items():
+        if k in ("precision", "scale"):
+            if type(v) is not int or not 0 <= v <= 38:
+                return False
+        elif k == "element_type":
+            if v not in TYPES:
+                return False
+        elif k == "nullable":
+            if type(v) is not bool:
+                return False
+        elif k == "description":
+            if type(v) is not str:
+                return False
+        elif k == "aliases":
+            if not isinstance(v, list) or not all(type(a) is str for a in v):
+                return False
+        elif k == "default":
+            # the column's declared default (FlatColumn.default, parsed by the type): a value the type admits
+            if base not in ("INTEGER", "DOUBLE", "BOOLEAN", "VARCHAR") or v is None or not decl_holds(base, width, v) \
+                    or (type(v) is float and (v != v or v in (float("inf"), float("-inf")))):
+                return False
+        elif k == "length":
+            # for RLE / dictionary / sparse columns `length` is what it is for a flat column: the declared
+            # width of the text.  (For constant / function columns it is the row count: the case's own key.)
+            if c["enc"] in ("const", "func") or base != "VARCHAR" or type(v) is not int or not 0 <= v <= 100000 \
+                    or any(x is not None and len(x) > v for x in vs):
+                return False
+    return True
+
+
+def declared(c):
+    """(base, width) of the case's declared type, (None, None) when it declares none, or False."""
+    if "type" in c and "type_name" in c:
+        return False
+    if "type" in c:
+        return (c["type"], None) if c["type"] in TYPES else False
+    if "type_name" in c:
+        return parse_type_name(c["type_name"]) or False
+    return (None, None)
+
+
+def type_spellings(v, n):
+    """Type names under which a constant / function column of `n` rows of `v` can be declared: plain in
+    both letter cases and every parametrised form, the declared width at / next to the row count and at
+    the width of the value."""
+    if v is None:
+        return ["INTEGER", "varchar", "VARCHAR[20]", "VARCHAR[%d]" % (n + 1), "BLOB[8]", "DECIMAL(10,2)", "DECIMAL(38, 0)",
+                "DECIMAL", "ARRAY<INTEGER>", "array<varchar>"]
+    if type(v) is str or type(v) is bytes:
+        b = "VARCHAR" if type(v) is str else "BLOB"
+        ws = sorted(w for w in {len(v), 20, n, n + 1, n - 1, 255} if w >= len(v) and w >= 0)
+        return [b, b.lower()] + ["%s[%d]" % (b, w) for w in ws] + ["%s[%d]" % (b.capitalize(), ws[-1])]
+    if type(v) is bool:
+        return ["BOOLEAN", "boolean"]
+    if type(v) is int:
+        return ["INTEGER", "integer", "DECIMAL(10,2)", "decimal(%d, 0)" % min(38, n + 1), "DECIMAL"]
+    return ["DOUBLE", "double"]
+
+
+def kw_choices(base, v):
+    """Further keywords of the shared constructor that a caller may add to any column."""
+    out = [{"precision": 7, "scale": 3}, {"element_type": "INTEGER"}, {"nullable": False, "description": "d", "aliases": ["k"]}]
+    if base in ("INTEGER", "DOUBLE", "BOOLEAN", "VARCHAR") and v is not None and decl_holds(base, None, v) \
+            and not (type(v) is float and (v != v or abs(v) == float("inf"))):
+        out.append({"default": v})
+    return out
+
+
+def declared_cases():
+    """Constant and function columns declared in every form x an explicit row count at, next to and far
+    from the declared width."""
+    for v in ("", "a", "abcd", b"", b"abc", 0, 7, 1.5, True, None):
+        for n in (0, 1, 2, 5, 20, 33):
+            for t in type_spellings(v, n):
+                for enc in ("const", "func"):
+                    yield {"enc": enc, "value": v, "length": n, "type_name": t}
+                    if n in (0, 5):
+                        yield {"enc": enc, "value": v, "length": n, "type_name": t, "via": "from_dict"}
+                base, _ = parse_type_name(t)
+                if n in (0, 2, 20):
+                    for kw in kw_choices(base, v):
+                        yield {"enc": "const", "value": v, "length": n, "type_name": t, "kw": kw}
+                        yield {"enc": "func", "value": v, "length": n, "type_name": t, "kw": kw, "cfg": [n]}
+            if n in (1, 5):
+                t = type_spellings(v, n)[-1]
+                for enc in ("const", "func"):
+                    yield {"enc": enc, "value": v, "length": n, "type_name": t, "ops": ["mat", "len:%d" % (n + 2), "mat", "flat", "mat"]}
+        # no declared type at all, only further keywords
+        for kw in kw_choices(None, v) if not isinstance(v, bytes) else ():
+            yield {"enc": "const", "value": v, "length": 3, "kw": kw}
+            yield {"enc": "func", "value": v, "length": 3, "kw": kw}
+
+
+def declared_sequence_variants(b, vs):
+    """RLE / dictionary / sparse columns declared by type name, with the keywords of a flat column."""
+    present = [v for v in vs if v is not None]
+    kinds = {type(v) for v in present}
+    if kinds <= {str}:
+        w = max([len(v) for v in present] or [0])
+        yield dict(b, type_name="varchar")
+        yield dict(b, type_name="VARCHAR[%d]" % w)
+        yield dict(b, type_name="VARCHAR[%d]" % (len(vs) + 1 if len(vs) + 1 >= w else w + 1), kw={"length": w})
+        yield dict(b, type="VARCHAR", kw={"length": w + 3, "nullable": False})
+    if kinds <= {int}:
+        yield dict(b, type_name="integer")
+        yield dict(b, type_name="DECIMAL(10,2)")
+        yield dict(b, type_name="DECIMAL", kw={"precision": len(vs), "scale": 0})
+    if kinds <= {float}:
+        yield dict(b, type_name="double", kw={"description": "d"})
+    if kinds <= {bool}:
+        yield dict(b, type_name="boolean", kw={"aliases": ["k"]})
+    if not present:
+        yield dict(b, type_name="ARRAY<INTEGER>")
+        yield dict(b, type_name="BLOB[8]")
+    yield dict(b, via="from_dict")
+    for t in {str: ("VARCHAR[40]",), int: ("INTEGER",), float: ("DOUBLE",), bool: ("BOOLEAN",)}.get(next(iter(kinds), None), ()) if len(kinds) == 1 else ():
+        yield dict(b, type_name=t, via="from_dict")
+
+
 def ops_of(case):
     """The sequence of uses of the one column object (the plain case: expand once)."""
     if "ops" in case:
@@ -298,7 +481,7 @@ def ops_valid(case, xs):
     for op in ops:
         if not isinstance(op, str):
             return False
-        if op in ("mat", "decoy", "flat"):
+        if op in ("mat", "decoy", "flat", "copy"):
             continue
         if op.startswith("len:"):
             if enc not in ("const", "func") or not op[4:].isdigit() or int(op[4:]) > 200000:
@@ -326,6 +509,11 @@ def has_model(case):
         return False
     if case.get("container", "list") not in ("list", "tuple", "array"):
         return False
+    if isinstance(case.get("value"), bytes):
+        return False  # (bytes are outside the model's element kinds: oracle only)
+    vals = [case.get("value"), case.get("default")] + (list(case["values"]) if isinstance(case.get("values"), list) else [])
+    if any(isinstance(v, str) and v.endswith("\x00") for v in vals):
+        return False  # text ending in NUL is outside the model's element kinds (`Enc.endsNul`, open finding C09-K03)
     return case["enc"] in ("const", "func") or len(values_of(case)) <= MODEL_MAX_LEN
 
 
@@ -369,19 +557,30 @@ def build_column(schema, case, calls=None):
     kw = {"name": "c"}
     if "type" in case:
         kw["type"] = getattr(OrsoTypes, case["type"])
+    if "type_name" in case:
+        kw["type"] = str(case["type_name"])
+    for k, v in (case.get("kw") or {}).items():
+        kw[k] = list(v) if isinstance(v, list) else v
+    def make(cls, **own):
+        # the second way to a column: the dictionary form (`from_dict` is `cls(**dic)` after a look at the type)
+        if case.get("via") == "from_dict":
+            return cls.from_dict(dict(own, **kw))
+        return cls(**own, **kw)
+
     if enc == "rle":
-        return schema.RLEColumn(values=build_input(case), **kw)
+        return make(schema.RLEColumn, values=build_input(case))
     if enc == "dict":
-        return schema.DictionaryColumn(values=build_input(case), **kw)
+        return make(schema.DictionaryColumn, values=build_input(case))
     if enc == "sparse":
+        own = {"values": build_input(case)}
         if not case.get("omit_default"):
             d = fresh(case["default"])
             if "default_np" in case:
                 d = numpy.dtype(case["default_np"]).type(d)
-            kw["default_value"] = d
-        return schema.SparseColumn(values=build_input(case), **kw)
+            own["default_value"] = d
+        return make(schema.SparseColumn, **own)
     if enc == "const":
-        return schema.ConstantColumn(value=case["value"], length=case["length"], **kw)
+        return make(schema.ConstantColumn, value=case["value"], length=case["length"])
     if enc == "func":
         v, cfg = case["value"], case.get("cfg")
 
@@ -394,7 +593,7 @@ def build_column(schema, case, calls=None):
 
         if cfg is not None:
             kw["configuration"] = tuple(cfg)
-        return schema.FunctionColumn(binding=binding, length=case["length"], **kw)
+        return make(schema.FunctionColumn, binding=binding, length=case["length"])
     raise InfraError("bad encoding %r" % (enc,))
 
 
@@ -429,6 +628,7 @@ def run_impl(case):
             warnings.simplefilter("ignore")
             calls = []
             col = build_column(schema, case, calls)
+            out["attrs"] = [canon(col.length), canon(col.precision), canon(col.scale)]
             if enc == "rle":
                 out["values"], out["vkind"] = canon(col.values), kind_of(col.values)
                 out["lengths"] = [int(x) for x in col.lengths]
@@ -465,6 +665,17 @@ def run_impl(case):
                     build_decoy(schema, case)
                 elif op == "flat":
                     col.to_flatcolumn()
+                elif op == "copy":
+                    # go on with a deep copy; the original is expanded and dropped (nothing may be shared)
+                    import copy
+
+                    col, old = copy.deepcopy(col), col
+                    old.materialize()
+                    if enc != "func" and len(numpy.asarray(old.values)):
+                        try:
+                            old.values[...] = old.values[::-1].copy()
+                        except (TypeError, ValueError):
+                            pass
                 elif op.startswith("len:"):
                     col.length = int(op[4:])
                 else:
@@ -726,14 +937,20 @@ def homogeneous(values):
     return len(ks) <= 1
 
 
-KEYS = {"enc", "values", "spec", "default", "value", "length", "f", "ops", "container", "default_np", "omit_default", "type", "cfg"}
+KEYS = {"enc", "values", "spec", "default", "value", "length", "f", "ops", "container", "default_np", "omit_default", "type", "cfg",
+        "type_name", "kw", "via"}
 
 
 def type_ok(c, vs):
-    t = c.get("type")
-    if t is None:
-        return True
-    return t in TYPES and all(v is None or type(v) is TYPES[t] for v in vs)
+    if "via" in c and (c["via"] != "from_dict" or "type" in c):
+        return False  # (the dictionary form carries the type by name)
+    d = declared(c)
+    if d is False:
+        return False
+    base, width = d
+    if base is not None and not all(decl_holds(base, width, v) for v in vs):
+        return False
+    return kw_ok(c, base, width, vs)
 
 
 def valid_case(c):
@@ -745,7 +962,14 @@ def valid_case(c):
     if c["enc"] in ("const", "func"):
         if not (isinstance(c.get("length"), int) and not isinstance(c.get("length"), bool) and 0 <= c["length"] <= 200000):
             return False
-        if "value" not in c or not scalar_ok(c["value"]) or set(c) & {"values", "spec", "default", "container", "default_np", "omit_default"}:
+        if "value" not in c or set(c) & {"values", "spec", "default", "container", "default_np", "omit_default"}:
+            return False
+        if isinstance(c["value"], bytes):
+            # bytes only as the value of a column declared BLOB (numpy's bytes dtype drops trailing NULs)
+            if declared(c) in (False, (None, None)) or declared(c)[0] != "BLOB" or c["value"].endswith(b"\x00") \
+                    or f is not None or any(o.startswith(("map:", "imap:")) for o in c.get("ops", []) if isinstance(o, str)):
+                return False
+        elif not scalar_ok(c["value"]):
             return False
         if "cfg" in c and (c["enc"] != "func" or not isinstance(c["cfg"], list) or len(c["cfg"]) > 4
                            or not all(type(a) in (int, str) for a in c["cfg"])):
@@ -880,6 +1104,40 @@ def dtype_correspondence(ctx, c, out):
             return
 
 
+_CTOR_CACHE = {}
+DECIMAL_PS = re.compile(r"^DECIMAL\((\d{1,2}), ?(\d{1,2})\)$", re.I)
+
+
+def ctor_correspondence(ctx, c, out):
+    """The attributes the shared constructor leaves behind against `Gen.Encodings.ctorResolve` (the block of
+    FlatColumn.__init__ translated from the source, run by the Lean driver): keywords `length`, `precision`,
+    `scale` against the parameters written in the type name."""
+    d = declared(c)
+    kw = c.get("kw") or {}
+    n_kw = c["length"] if c["enc"] in ("const", "func") else kw.get("length")
+    dn = dp = ds = None
+    if "type_name" in c:
+        dn = d[1]
+        m = DECIMAL_PS.match(c["type_name"])
+        if m:
+            dp, ds = int(m.group(1)), int(m.group(2))
+    key = (n_kw, kw.get("precision"), kw.get("scale"), dn, dp, ds)
+    if key not in _CTOR_CACHE:
+        text = ctx.model.one("C09 ctor " + wire.line(*key))
+        if not text.startswith("ok"):
+            raise InfraError("model rejected constructor arguments %r: %r" % (key, text))
+        _CTOR_CACHE[key] = [canon(x) for x in wire.dec_all(text[2:])]
+    # `length` is the attribute the encodings read (precision / scale / element type are none of this
+    # property's business: a change to how *they* are resolved must not alarm here)
+    want = list(_CTOR_CACHE[key])[:1]
+    got = list(out.get("attrs") or [])[:1]
+    ctx.hit("ctor:" + ("keyword+declared" if n_kw is not None and dn is not None else "keyword" if n_kw is not None
+                       else "declared" if dn is not None else "neither"))
+    if got != want:
+        ctx.disagree(c, {"length after construction": got}, {"ctorResolve": want},
+                     what="attributes left by the shared constructor")
+
+
 def evaluate(ctx, cases):
     with_model = [has_model(c) for c in cases]
     it = iter(ctx.model.batch([model_line(c) for c, w in zip(cases, with_model) if w]))
@@ -902,9 +1160,18 @@ def evaluate(ctx, cases):
         for k_ in ("default_np", "type"):
             if k_ in c:
                 ctx.hit("%s:%s" % (k_, c[k_]))
-        for k_ in ("omit_default", "cfg"):
+        for k_ in ("omit_default", "cfg", "via"):
             if k_ in c:
                 ctx.hit(k_)
+        if "type_name" in c:
+            base_, w_ = parse_type_name(c["type_name"])
+            form = "plain" if c["type_name"].upper() == base_ else "parametrised"
+            ctx.hit("type_name:%s:%s:%s" % (c["enc"], base_, form))
+            if c["enc"] in ("const", "func") and w_ is not None:
+                # where the declared width lies relative to the row count (both live in `length`)
+                ctx.hit("declared-width-vs-rows:" + ("equal" if w_ == c["length"] else "one-off" if abs(w_ - c["length"]) == 1 else "apart"))
+        for k_ in sorted(c.get("kw") or {}):
+            ctx.hit("kw:" + k_)
         ks = sorted({type(v).__name__ for v in xs}) or ["empty"]
         ctx.hit("kind:" + "+".join(ks))
         if c["enc"] == "sparse":
@@ -945,6 +1212,8 @@ def evaluate(ctx, cases):
             ctx.disagree(c, out, m)
         elif "raised" not in out:
             dtype_correspondence(ctx, c, out)
+            if "type_name" in c or "kw" in c:
+                ctor_correspondence(ctx, c, out)
 
 
 # --------------------------------------------------------------------------- generators
@@ -991,6 +1260,7 @@ def op_sequences(f, f2, enc):
     or of its dtype must not survive the map); map twice; another object / to_flatcolumn in between."""
     yield ["mat", "mat"]
     yield ["decoy", "mat", "flat", "mat"]
+    yield ["copy", "mat"]
     for g in (f,) + tuple(f2):
         if g is None:
             continue
@@ -1087,6 +1357,7 @@ def sequence_cases(nmax):
                     for cont in ("tuple", "array"):
                         yield dict(b, container=cont)
                     yield dict(b, type=type_name)
+                    yield from declared_sequence_variants(b, vs)
                     if b["enc"] == "sparse" and b["default"] is None:
                         yield dict(b, omit_default=True)
 
@@ -1130,6 +1401,64 @@ def narrow_cases(nmax):
                 c = {"enc": "sparse", "values": vs, "default": d, "default_np": dnp}
                 if valid_case(c):
                     yield c
+
+
+# floats that a tolerance, a difference or a sort treats specially: the smallest subnormal next to 0.0, two
+# neighbouring doubles, both infinities (inf - inf is NaN), the largest magnitudes (their difference overflows)
+EXTREME_FLOATS = (0.0, 5e-324, 1.0, 1.0000000000000002, float("inf"), float("-inf"), 1e308)
+
+
+COLLIDING_INTS = (-1, -2, 0, 2**61 - 1)
+
+
+def extreme_float_cases(nmax):
+    for n in range(nmax + 1):
+        for seq in itertools.product(EXTREME_FLOATS, repeat=n):
+            vs = list(seq)
+            yield {"enc": "rle", "values": vs}
+            yield {"enc": "dict", "values": vs}
+            for d in (None, float("inf"), 0.0, 1.0, 0):
+                yield {"enc": "sparse", "values": vs, "default": d}
+            if n <= 2:
+                for f in ("double", "halve"):
+                    yield {"enc": "rle", "values": vs, "f": f}
+                    yield {"enc": "dict", "values": vs, "f": f}
+                yield {"enc": "sparse", "values": vs, "default": float("-inf"), "f": "double"}
+                yield {"enc": "rle", "values": vs, "container": "array"}
+    for v in EXTREME_FLOATS:
+        yield {"enc": "const", "value": v, "length": 2}
+        yield {"enc": "func", "value": v, "length": 2}
+    # integers whose CPython hashes collide (hash(-1) == hash(-2), hash(0) == hash(2**61 - 1)): a dictionary
+    # or a run detection keyed on hashes must not merge them
+    for n in range(min(nmax, 3) + 1):
+        for seq in itertools.product(COLLIDING_INTS, repeat=n):
+            vs = list(seq)
+            yield {"enc": "rle", "values": vs}
+            yield {"enc": "dict", "values": vs}
+            for d in (None, -1, -2, 0):
+                yield {"enc": "sparse", "values": vs, "default": d}
+
+
+# text that differs only in what a normalisation, a strip, a case fold or a fixed-width field would remove
+UNUSUAL_TEXT = ("", "a", "a ", " a", "A", "á", "á", "a\x00b", "ß", "日本", "\U0001f600", "a\t", "a\n")
+
+
+def unusual_text_cases(nmax):
+    for n in range(nmax + 1):
+        for seq in itertools.product(UNUSUAL_TEXT, repeat=n):
+            vs = list(seq)
+            yield {"enc": "rle", "values": vs}
+            yield {"enc": "dict", "values": vs}
+            for d in (None, "", "a", "a "):
+                yield {"enc": "sparse", "values": vs, "default": d}
+            if n == 1:
+                yield {"enc": "rle", "values": vs, "f": "suffix"}
+                yield {"enc": "dict", "values": vs, "f": "suffix"}
+                yield {"enc": "rle", "values": vs, "type_name": "VARCHAR[%d]" % len(vs[0])}
+    for v in UNUSUAL_TEXT:
+        yield {"enc": "const", "value": v, "length": 2}
+        yield {"enc": "func", "value": v, "length": 2}
+        yield {"enc": "const", "value": v, "length": 3, "type_name": "VARCHAR[%d]" % len(v)}
 
 
 def gen_scalar(rng, kind):
@@ -1303,7 +1632,7 @@ def random_variant(rng, c, kind):
         for _ in range(rng.randint(1, 4)):
             q = rng.random()
             ops.append("mat" if q < 0.4 else "map:" + rng.choice(RANDOM_FUNCS[kind] + ("id", "invert", "tostr", "toint")) if q < 0.8
-                       else rng.choice(["decoy", "flat", "imap:double"] + (["len:%d" % rng.randint(0, 9)] if c["enc"] in ("const", "func") else [])))
+                       else rng.choice(["decoy", "flat", "copy", "imap:double"] + (["len:%d" % rng.randint(0, 9)] if c["enc"] in ("const", "func") else [])))
         c = dict(base, ops=ops + ["mat"])
         # drop the ops that are not applicable where they stand
         while not valid_case(c) and len(c["ops"]) > 1:
@@ -1322,10 +1651,25 @@ def random_variant(rng, c, kind):
                 if default_np_ok(dnp, c["default"]):
                     c["default_np"] = dnp
                     break
-    else:
+    elif r < 0.85:
         c = dict(base, type=KIND_TYPE[kind])
         if c["enc"] == "func":
             c["cfg"] = [rng.randint(0, 5), "k"][: rng.randint(0, 2)]
+    else:
+        # declared by type name (any spelling), with further keywords of the shared constructor
+        if c["enc"] in ("const", "func"):
+            v, n = c["value"], c["length"]
+            if kind == "text" and v is not None and rng.random() < 0.2 and "f" not in c:
+                v = v.encode("utf-8").rstrip(b"\x00")
+            t = rng.choice(type_spellings(v, rng.choice([n, n, len(v) if isinstance(v, (str, bytes)) else n, rng.randint(0, 40)])))
+            c = dict(base, value=v, type_name=t)
+            if rng.random() < 0.4:
+                c["kw"] = rng.choice(kw_choices(parse_type_name(t)[0], v))
+        else:
+            vs = values_of(c)
+            cands = list(declared_sequence_variants(base, vs))
+            if cands:
+                c = rng.choice(cands)
     return c if valid_case(c) else base
 
 
@@ -1376,6 +1720,19 @@ CORPUS = [
     {"enc": "const", "value": True, "length": 2, "f": "invert"},
     {"enc": "const", "value": 3, "length": 5, "ops": ["imap:double", "mat", "len:0", "mat"]},
     {"enc": "func", "value": 1.5, "length": 2, "cfg": [1, "a"], "ops": ["mat", "len:0", "mat", "len:3", "mat"]},
+    # the row count of a constant / function column against the width declared in the type name
+    {"enc": "const", "value": "abc", "length": 5, "type_name": "VARCHAR[20]"},
+    {"enc": "func", "value": "abc", "length": 0, "type_name": "VARCHAR[20]"},
+    {"enc": "const", "value": b"abc", "length": 2, "type_name": "BLOB[8]", "via": "from_dict"},
+    # a default that is not a value of the data's dtype next to the element it would be narrowed to
+    {"enc": "sparse", "values": [2, 3, 2, 7, 2], "default": 2.5},
+    {"enc": "sparse", "values": ["a", "b", "a", "c"], "default": "abc"},
+    {"enc": "sparse", "values": [True, False], "default": 2},
+    # runs of infinities
+    {"enc": "rle", "values": [1.5, float("inf"), float("inf"), float("-inf"), float("-inf"), 2.0]},
+    # C09-K03 (open): text ending in NUL
+    {"enc": "const", "value": "a\x00", "length": 2},
+    {"enc": "rle", "values": ["a\x00", "b", "b"]},
 ]
 
 
@@ -1428,10 +1785,13 @@ def run(ctx):
     nseq, nnarrow = ctx.scale((2, 2), (4, 3))
     scope("boundary-small", boundary_cases(large=False))
     scope("scalars", scalar_cases())
+    scope("declared-types", declared_cases())
     for n in range(core_n + 1):
         scope("exhaustive-length-%d" % n, exhaustive_level(n, n <= nmax_map))
     scope("sequences-of-uses", sequence_cases(nseq))
     scope("narrow-containers", narrow_cases(nnarrow))
+    scope("extreme-floats", extreme_float_cases(ctx.scale(3, 4)))
+    scope("unusual-text", unusual_text_cases(ctx.scale(2, 3)))
     for n in range(core_n + 1, nmax + 1):
         scope("exhaustive-length-%d" % n, exhaustive_level(n, n <= nmax_map), reserve=6.0)
         if n == core_n + 1:
@@ -1453,6 +1813,16 @@ def run(ctx):
              "(constant / function) -- and handed over as tuple / numpy array, with a declared column type, with the default omitted; "
              "every sequence of length 0..%d over value pools at the limits of int8..uint64 / float16 / float32 / object / wide-text "
              "numpy arrays with defaults outside the dtype's range or precision and typed (numpy scalar) defaults" % (nseq, nnarrow))
+    ctx.note("declared_scope", "constant and function columns of %s declared under every spelling of the type (OrsoTypes member; plain "
+             "name in either letter case; VARCHAR[n] / BLOB[n] with n at the width of the value, at the row count, one next to it, "
+             "20, 255; DECIMAL(p,s); DECIMAL; ARRAY<T> for nulls) x explicit row counts 0, 1, 2, 5, 20, 33, with further keywords of "
+             "the shared constructor (precision, scale, element_type, nullable, description, aliases, default), built directly and "
+             "through from_dict; RLE / dictionary / sparse columns declared by name with the flat-column keyword length (= text "
+             "width); deep copies" % (["", "a", "abcd", "b''", "b'abc'", 0, 7, 1.5, True, None],))
+    ctx.note("unusual_scope", "every sequence of length 0..%d over %r (subnormal next to zero, neighbouring doubles, both infinities, "
+             "1e308) and of length 0..%d over %r (trailing / leading blank, case, composed vs combining accent, inner NUL, sharp s, "
+             "CJK, astral, tab, newline) through RLE, dictionary and sparse columns; hash-colliding integers %r likewise; text ending "
+             "in NUL is open finding C09-K03" % (ctx.scale(3, 4), list(EXTREME_FLOATS), ctx.scale(2, 3), list(UNUSUAL_TEXT), list(COLLIDING_INTS)))
     n_random = ctx.scale(4000, 60000)
     done = 0
     while done < n_random and (ctx.time_left() > 4 or ctx.replaying):
@@ -1492,4 +1862,29 @@ def is_dict_object_array_nan(case, failure=None):
     return (failure.get("clause") or "") == "stored form: dictionary entries are not unique"
 
 
-KNOWN_PREDICATES = {"sparse_big_int_float_default": is_big_int_float_default, "dict_object_array_nan": is_dict_object_array_nan}
+def is_text_trailing_nul(case, failure=None):
+    """C09-K03: text that ends in NUL characters comes back without them from every encoding (numpy's
+    fixed-width text dtype pads with NULs and cannot tell padding from content).  Only the failure "the
+    element came back as the input element without its trailing NULs" is suppressed."""
+    import ast
+
+    enc = case.get("enc")
+    vals = [case.get("value")] if enc in ("const", "func") else case.get("values")
+    if not isinstance(vals, list) or not any(isinstance(v, str) and v.endswith("\x00") for v in vals):
+        return False
+    if failure is None:
+        return True
+    if "an element of the expansion differs" not in (failure.get("clause") or ""):
+        return False
+    m = re.match(r"element \d+ of the expansion is (.+) \(str\), the input has (.+) \(str\)$", failure.get("detail") or "", re.S)
+    if not m:
+        return False
+    try:
+        got, want = ast.literal_eval(m.group(1)), ast.literal_eval(m.group(2))
+    except (ValueError, SyntaxError):
+        return False
+    return isinstance(got, str) and isinstance(want, str) and want.endswith("\x00") and got == want.rstrip("\x00")
+
+
+KNOWN_PREDICATES = {"sparse_big_int_float_default": is_big_int_float_default, "dict_object_array_nan": is_dict_object_array_nan,
+                    "text_trailing_nul": is_text_trailing_nul}
